@@ -113,6 +113,8 @@ def run(ctx, rep):
         t.get('fn') in POLL_NAMES and any(fu.kind == 'trait_fn' and fu.path == 'ops::Qcow2IoOps::fallocate'
                                           for fu in P.futs(t['a'][0], ())) for _bi, t in b.calls())
         and 'Qcow2Dev' in b.path]
+    rep.rule('C12.6', 'the fresh refblock of the growth path accounts for the refblock and every cluster of the relocated table')
+    growth_refcount_rule(f, rep)
     rep.floor('zero/punch wrappers', len(wrappers), 1)
     for b in wrappers:
         dp = Deps(P, b)
@@ -131,3 +133,48 @@ def run(ctx, rep):
                           '%s passes a zero length to the backend: table growth zeroes an empty range in front of a '
                           'refblock that starts its slice range, the punch fails and the zero-write fallback allocates a '
                           '0-byte buffer (panic)' % short(b.path))
+
+
+def growth_refcount_rule(f, rep):
+    """C12.6: the fresh refblock built by the growth path accounts for every cluster of the relocated
+    table: some increment site can reach index N = cluster count of the grown table (if every index that
+    is incremented is provably below N, the last table cluster is written with refcount 0)"""
+    from ..absint import AbsInt
+    bodies = [b for b in f.body_list if b.is_coroutine and b.path.endswith('grow_reftable::{closure#0}')]
+    if len(bodies) != 1:
+        raise AnalysisError('grow_reftable not found')
+    b = bodies[0]
+    ai = AbsInt(f, inline=lambda p: not p.endswith('RefBlock::increment'))
+    counts = []
+    incs = []
+
+    def after_cc(ai_, st, frame, b_, bi, t, res):
+        if b_.path == b.path:
+            counts.append((bi, res))
+
+    def after_inc(ai_, st, frame, b_, bi, t, res):
+        args = [ai_.operand(st, b_, frame, a) for a in t['args']]
+        incs.append(((b_.path, bi, frame), args[1] if len(args) > 1 else None, st.copy()))
+    ai.after_call['Table::cluster_count'] = after_cc
+    ai.after_call['RefBlock::increment'] = after_inc
+    ai.analyze(b.path)
+    if not counts:
+        raise AnalysisError('grow_reftable: cluster count of the grown table not found')
+    N = counts[0][1]
+    last = {}
+    for key, idx, st in incs:
+        last[key] = (idx, st)
+    rep.floor('refcount increments on the growth path', len(last), 1)
+    reach = False
+    for key, (idx, st) in sorted(last.items(), key=lambda kv: kv[0][1]):
+        below = idx is not None and ai.prove_le(st, idx, N, True)
+        if not below:
+            reach = True
+    rep.ob('C12.6', 'new refblock covers the refblock and all clusters of the relocated table', reach,
+           'some increment can reach index N (cluster count of the grown table)' if reach else
+           'every incremented index is provably below N: the last cluster of the table keeps refcount 0')
+    if not reach:
+        rep.violation('C12.6', 'C12.6:grow_reftable:coverage', b.where(counts[0][0]),
+                      'grow_reftable increments the refcounts of indexes that are all provably below the cluster count of the '
+                      'relocated table: its last cluster (index N, after the refblock at index 0) is written with refcount 0, so '
+                      'the image is invalid as soon as the header is switched')
